@@ -472,7 +472,44 @@ def r10(ctx):
     ctx.floor(R, 2)
 
 
+def r11(ctx):
+    R = "C07-R11"
+    ctx.rule(R, "(a) the pending log is append-only: a record is never modified after it was pushed - no `last_mut` / `iter_mut` / `get_mut` / "
+                "`first_mut` / index-assignment on Fs::pending outside the crash-time tearing itself (torn writes are cut per record, so two writes merged into one "
+                "record are torn on a grid the block-size knob does not permit; sync classes and timestamps are per record too); "
+                "(b) sync_dir(d) selects the records of d's *entries*: every arm of its selection and of its durable-entry update compares "
+                "`p.parent()` (or, for the directory itself, `p`) with d for equality - never a prefix test (`starts_with`, `ancestors`, "
+                "`strip_prefix`), which would flush removals and creations in directories that were never synced")
+    MUT = re.compile(r"^std::vec::Vec::(last_mut|first_mut|iter_mut|get_mut|swap|reverse|sort\w*|dedup\w*)$|slice::<impl \[T\]>::(last_mut|first_mut|iter_mut|get_mut|swap|reverse|sort\w*)$|IndexMut>::index_mut$")
+    bad = []
+    for b in sorted(ctx.w.bodies.values(), key=lambda b: b.id):
+        if b.crate != "turmoil_fs" or "::tests::" in b.id:
+            continue
+        for bb, t in b.calls(re.compile(r"(::|>::)(last_mut|first_mut|iter_mut|get_mut|index_mut|split_last_mut|split_first_mut|swap|reverse|sort\w*|dedup\w*)$")):
+            if t["args"] and "field:" + FS + "pending" in Slicer(ctx.w).atoms(b, t["args"][0]):
+                root = b
+                while root.parent and root.parent in ctx.w.bodies:
+                    root = ctx.w.bodies[root.parent]
+                if root.id == FS + "apply_torn_writes":
+                    continue        # the crash itself cuts each record to the blocks that made it to disk: that is the tearing
+                bad.append((root.id, t["f"].rsplit("::", 1)[1], t["s"]))
+    ctx.inst(R, "pending:append-only", not bad, bad[0][2] if bad else "", "no record of the pending log is modified in place" if not bad else
+             f"`{bad[0][0]}` modifies a record of the pending log in place (`{bad[0][1]}` on Fs::pending): records are torn, classified and timestamped one by one - "
+             "two sequential writes coalesced into one record are torn on the grid of the first write (abc|def with block 4 can leave `abcd`)")
+    sd = ctx.body(R, FS + "sync_dir")
+    if sd:
+        PREFIX = re.compile(r"Path::(starts_with|ancestors|strip_prefix|ends_with)$|PathBuf::(starts_with|ancestors|strip_prefix)$")
+        pre = [(fb.id, t["s"]) for fb in ctx.w.family(sd.id) for bb, t in fb.calls(PREFIX)]
+        par = [1 for fb in ctx.w.family(sd.id) for bb, t in fb.calls(re.compile(r"Path::parent$"))]
+        ok = not pre and len(par) >= 6
+        ctx.inst(R, "sync_dir:selects-by-parent", ok, pre[0][1] if pre else sd.span, f"sync_dir compares parents for equality ({len(par)} tests)" if ok else
+                 "sync_dir selects records with a prefix test instead of `p.parent() == dir`: syncing an ancestor makes removals (or creations) in deeper, never-synced "
+                 "directories durable - an unsynced remove is not rolled back by a crash and durably synced files are lost")
+    ctx.floor(R, 2)
+
+
 def run(ctx):
+    r11(ctx)
     r10(ctx)
     r9(ctx)
     scan_rule(ctx, "C07")
